@@ -6,6 +6,9 @@ the extracted model Mlk (coq/Model/Lk.v).
   gen_schedules(...)    lkdriver gen: DFS over the MODEL's enabled items, preemption bounded, forced wake items inserted
   run_schedules(...)    harness/sched in child processes (a hang / fatal error is recorded against the running schedule)
   check_observed(...)   lkdriver check: first differing item per schedule + ghost facts (LaGiveBack = F-LIN2 signature)
+  trace_predicates(...) lkdriver trace: the trace predicates of coq/Model/LkTrace.v (extracted Gallina, PROVED to hold of every
+                        reachable trace of Mlk: Proofs/LkTraceP.v) evaluated on the REAL call/return history of every schedule;
+                        a false predicate is a violation of the property it belongs to, exactly like a Python oracle failure
   oracle_C01/02/03/13   the properties' own oracles, written from the property texts, evaluated on the REAL traces
   gen_exhibits(...)     EXHIBIT schedules: a schedule of the comparison run with asynchronous items (context end of that thread,
                         GC pass, tick) put where a thread went through a WINDOW yield point (W labels: a call has just returned,
@@ -80,7 +83,7 @@ def unhx(s):
 def build_driver(ctx):
     drv = LK / "lkdriver"
     with Lock("ocaml-lk"):
-        srcs = [VERIF / "coq" / "Model" / f for f in ("Lk.vo", "Base.vo", "Err.vo")] + [LK / "driver.ml", VERIF / "coq" / "Extract" / "LkExtract.v"]
+        srcs = [VERIF / "coq" / "Model" / f for f in ("Lk.vo", "Base.vo", "Err.vo", "LkTrace.vo")] + [LK / "driver.ml", VERIF / "coq" / "Extract" / "LkExtract.v"]
         missing = [str(s) for s in srcs if not s.exists()]
         if missing:
             return False, "missing (Coq model not built?): " + ", ".join(missing)
@@ -430,6 +433,55 @@ def check_observed(ctx, b, dirs):
             elif f[0] == "B":
                 r = res.setdefault(f[1], dict(ok=True, first=None, diffs=[], giveback=False, model_crashed=False, ghost=[], bad=None))
                 r["bad"] = " ".join(f[2:])
+    return res
+
+
+# ------------------------------------------------------------------------- the extracted Coq trace predicates
+
+# predicate of Model/LkTrace.v -> (property it belongs to, theorem of Proofs/LkTraceP.v that proves it of every model trace)
+TRACE_PREDS = {"wf": ("C02", "mlk_satisfies_p_wellformed"), "c01": ("C01", "mlk_satisfies_p_c01"), "once": ("C02", "mlk_satisfies_p_c02_once"),
+               "fail": ("C02", "mlk_satisfies_p_c02_fail_consumes_nothing"), "giveup": ("C03", "mlk_satisfies_p_c03_giveup")}
+TRACE_PRED_TEXT = {"wf": "p_wellformed: a response without exactly one earlier invocation of that call, or a call that answered twice",
+                   "c01": "p_c01: more live holds (granted, Unlock not yet invoked) of one lock than the size the granted request named",
+                   "once": "p_c02_once: a key unlocked successfully twice, or a key that was never granted unlocked successfully",
+                   "fail": "p_c02_fail_consumes_nothing: the key of a failed / refused acquisition unlocked successfully",
+                   "giveup": "p_c03_giveup: a Lock that returned an error answered again, or its key unlocked successfully"}
+
+
+def trace_predicates(ctx, b, dirs):
+    """lkdriver trace over every observed.txt -> {sid: dict(events, fresh, verdict={pred: None | (prefix length, index)}, holds, hist)}.
+    fresh: None when the history satisfies the model's key assumption (p_fresh), else the offending position: the schedule is then
+    outside what the theorems speak about and its verdicts are only counted."""
+    res = {}
+    for d in dirs:
+        ob = d / "observed.txt"
+        if not ob.exists():
+            continue
+        rc, out = sh([str(b["driver"]), "trace", str(ob)], cwd=d, timeout=300)
+        (d / "trace_verdict.txt").write_text(out)
+        for line in out.splitlines():
+            f = line.split()
+            if len(f) < 3 or f[0] not in ("P", "PL", "PH", "PB"):
+                continue
+            r = res.setdefault(f[1], dict(events=0, fresh=None, verdict={}, holds="", hist="", bad=None))
+            try:
+                if f[0] == "P":
+                    r["events"] = int(f[2])
+                    for kv in f[3:]:
+                        k, v = kv.split("=", 1)
+                        val = None if v == "-" else tuple(int(x) for x in v.split("@"))
+                        if k == "fresh":
+                            r["fresh"] = val
+                        else:
+                            r["verdict"][k] = val
+                elif f[0] == "PL":
+                    r["holds"] = " ".join(f[4:])
+                elif f[0] == "PH":
+                    r["hist"] = " ".join(f[2:])
+                elif f[0] == "PB":
+                    r["bad"] = " ".join(f[2:])
+            except (ValueError, IndexError):
+                r["bad"] = "unreadable verdict line: " + line[:200]
     return res
 
 
@@ -910,6 +962,13 @@ def execute(ctx, b, sched_file, name, procs=8, timeout=300, xpark=True):
     for d in rr["dirs"]:
         runs.update(parse_observed(d / "observed.txt"))
     chk = check_observed(ctx, b, rr["dirs"])
+    t_tp = time.time()
+    try:
+        tp = trace_predicates(ctx, b, rr["dirs"])
+    except Exception as ex:  # noqa
+        tp = {}
+        ctx.note("T2: lkdriver trace failed: %r" % (ex,))
+    t_tp = time.time() - t_tp
     reached = {}
     for d in rr["dirs"]:
         try:
@@ -917,24 +976,67 @@ def execute(ctx, b, sched_file, name, procs=8, timeout=300, xpark=True):
                 reached[k] = reached.get(k, 0) + v
         except Exception:
             pass
-    return dict(runs=runs, chk=chk, failures=rr["failures"], reached=reached, schedules=rr["schedules"], abandoned=rr["abandoned"], dirs=list(rr["dirs"]))
+    return dict(runs=runs, chk=chk, failures=rr["failures"], reached=reached, schedules=rr["schedules"], abandoned=rr["abandoned"], dirs=list(rr["dirs"]),
+                tp=tp, tp_wall=t_tp)
 
 
-def judge(prop, runs, chk, failures, compare=True):
-    """-> dict(violations=[(sid, idx, text)], known=[(sid, text)], mismatches=[(sid, k, kind, text)], label_only=n).
-    compare=False: the runs are evaluated by the oracle only (sentinel yield points were parking: the schedule is not the model's)."""
+def judge(prop, runs, chk, failures, compare=True, tp=None):
+    """-> dict(violations=[(sid, idx, text)], known=[(sid, text)], mismatches=[(sid, k, kind, text)], label_only=n, tp=statistics of the
+    extracted Coq trace predicates). compare=False: the runs are evaluated by the oracles only (sentinel yield points were parking:
+    the schedule is not the model's).
+    tp: trace_predicates(...). A predicate of `prop` that is false on a real history satisfying the model's key assumption is a
+    violation of `prop`. F-LIN2 (a Lock handed a unit after its context ended gives it back) cannot make one of them false: the
+    theorems of Proofs/LkTraceP.v hold of EVERY reachable trace of Mlk, the LaGiveBack ones included, so there is no known-finding
+    exemption here."""
     proj = PROJ.get(prop, {"bit", "table", "crash", "hang", "fatal"})
     oracle = ORACLES[prop]
     viol, known, mism = [], [], []
     label_only = 0
+    tps = dict(histories=0, events=0, outside_key_assumption=0, unreadable=0, evaluated={}, false={}, false_outside_key_assumption={},
+               python_oracle_failed=0, python_oracle_and_predicate_failed=0, predicate_failed_only=0)
     for sid, run in sorted(runs.items()):
         hist = history(run)
         c = chk.get(sid, {})
+        py_fail = False
+        n_before = len(viol)
         for v in oracle(run, hist):
             if prop == "C02" and len(v) > 2 and v[2] and c.get("giveback"):
                 known.append((sid, v[1]))
             else:
                 viol.append((sid, v[0], v[1]))
+                py_fail = True
+        t = (tp or {}).get(sid)
+        if t is not None:
+            tps["histories"] += 1
+            tps["events"] += t["events"]
+            if t.get("bad"):
+                tps["unreadable"] += 1
+            if t["fresh"] is not None:
+                tps["outside_key_assumption"] += 1
+            pred_fail = False
+            pv = []     # the Python oracle failed on this schedule as well: one violation, both texts
+            for pred, val in sorted(t["verdict"].items()):
+                if TRACE_PREDS.get(pred, ("", ""))[0] != prop:
+                    continue
+                tps["evaluated"][pred] = tps["evaluated"].get(pred, 0) + 1
+                if val is None:
+                    continue
+                if t["fresh"] is not None:
+                    tps["false_outside_key_assumption"][pred] = tps["false_outside_key_assumption"].get(pred, 0) + 1
+                    continue
+                tps["false"][pred] = tps["false"].get(pred, 0) + 1
+                pred_fail = True
+                (pv if py_fail else viol).append((sid, val[1] if len(val) > 1 else -1,
+                             "extracted Coq predicate %s is false on the real call/return history (shortest offending prefix: %d events, the last at "
+                             "index %d; proved of every trace of the model: %s)%s; history: %s"
+                             % (TRACE_PRED_TEXT.get(pred, pred), val[0], val[1] if len(val) > 1 else -1, TRACE_PREDS[pred][1],
+                                ("; live holds there: " + t["holds"]) if pred == "c01" and t.get("holds") else "", t.get("hist", "")[:600])))
+            if pv:
+                sid0, idx0, text0 = viol[n_before]
+                viol[n_before] = (sid0, idx0, text0 + " || ALSO: " + " || ".join(x[2] for x in pv))
+            tps["python_oracle_failed"] += 1 if py_fail else 0
+            tps["python_oracle_and_predicate_failed"] += 1 if (py_fail and pred_fail) else 0
+            tps["predicate_failed_only"] += 1 if (pred_fail and not py_fail) else 0
         if not compare:
             continue
         optab = {int(o.who[1:]): o for o in hist if o.who.startswith("t")}
@@ -952,7 +1054,7 @@ def judge(prop, runs, chk, failures, compare=True):
     if compare:
         for f in failures:
             mism.append((f["sid"], f["k"], f["kind"], f["text"][-600:]))
-    return dict(violations=viol, known=known, mismatches=mism, label_only=label_only)
+    return dict(violations=viol, known=known, mismatches=mism, label_only=label_only, tp=tps)
 
 
 def run_property(ctx, prop, scenarios=None, tier=None, procs=8):
@@ -971,6 +1073,7 @@ def run_property(ctx, prop, scenarios=None, tier=None, procs=8):
     scs = scenarios if scenarios is not None else load_scenarios(prop)
     t0 = time.time()
     runs, chk, failures, reached = {}, {}, [], {}
+    tp, tp_wall = {}, 0.0     # verdicts of the extracted Coq trace predicates per schedule (trace_predicates)
     cq_dirs = []     # directories whose observed.txt / verdict.txt lib/coqeval.py samples
     # corpus first
     corpus = [c for c in corpus_schedules() if not c.get("props") or prop in c["props"]]
@@ -979,6 +1082,7 @@ def run_property(ctx, prop, scenarios=None, tier=None, procs=8):
         cf.write_text("".join(corpus_text(c) for c in corpus))
         e = execute(ctx, b, cf, "corpus-%s" % prop, procs=procs, xpark=False)
         runs.update(e["runs"]); chk.update(e["chk"]); failures += e["failures"]
+        tp.update(e["tp"]); tp_wall += e["tp_wall"]
         cq_dirs += e["dirs"]
         for k, v in e["reached"].items():
             reached[k] = reached.get(k, 0) + v
@@ -988,21 +1092,23 @@ def run_property(ctx, prop, scenarios=None, tier=None, procs=8):
     # comparison run: window yield points (W) and shape sentinels (X) transparent; compared with the model after every item
     e = execute(ctx, b, sf, "run-%s" % prop, procs=procs, timeout=300 if tier == "quick" else 3000, xpark=False)
     runs.update(e["runs"]); chk.update(e["chk"]); failures += e["failures"]
+    tp.update(e["tp"]); tp_wall += e["tp_wall"]
     cq_dirs += e["dirs"]
     for k, v in e["reached"].items():
         reached[k] = reached.get(k, 0) + v
     n_compare = len(runs)
-    j = judge(prop, runs, chk, failures)
+    j = judge(prop, runs, chk, failures, tp=tp)
     # exhibit runs: asynchronous items at the window yield points the comparison run went through (windows parking)
     tx = time.time()
     rng = random.Random("%s/%s/exhibit" % (int(ctx.seed), prop))
     xl, xstats = gen_exhibits(runs, rng, EXHIBIT_BUDGET.get(tier, 320))
-    xruns, xchk, xfail = {}, {}, []
+    xruns, xchk, xfail, xtp = {}, {}, [], {}
     if xl:
         xf = b["work"] / ("exhibit-%s.txt" % prop)
         xf.write_text("".join(exhibit_text(x) for x in xl))
         e2 = execute(ctx, b, xf, "xrun-%s" % prop, procs=procs, timeout=300 if tier == "quick" else 3000, xpark="w")
         xruns, xchk, xfail = e2["runs"], e2["chk"], e2["failures"]
+        xtp.update(e2["tp"]); tp_wall += e2["tp_wall"]
         cq_dirs += e2["dirs"]
         meta = {x["id"]: x for x in xl}
         for sid, r in xruns.items():
@@ -1027,8 +1133,26 @@ def run_property(ctx, prop, scenarios=None, tier=None, procs=8):
                 v.exhibit = {"base": k, "window": None, "inserted": "shape sentinels / additional mutex acquisitions parking until the thread's next run item", "after_item": None}
                 xruns["x:" + k] = v
             xchk.update({"x:" + k: v for k, v in e3["chk"].items()})
-    j2 = judge(prop, {k: v for k, v in xruns.items() if not k.startswith("x:")}, xchk, xfail)
-    j3 = judge(prop, {k: v for k, v in xruns.items() if k.startswith("x:")}, xchk, [], compare=False)
+            xtp.update({"x:" + k: v for k, v in e3["tp"].items()}); tp_wall += e3["tp_wall"]
+    j2 = judge(prop, {k: v for k, v in xruns.items() if not k.startswith("x:")}, xchk, xfail, tp=xtp)
+    j3 = judge(prop, {k: v for k, v in xruns.items() if k.startswith("x:")}, xchk, [], compare=False, tp=xtp)
+    # the extracted Coq trace predicates (Model/LkTrace.v) on the real histories: comparison runs + exhibit runs + reruns
+    tps = {}
+    for j_ in (j, j2, j3):
+        for k_, v_ in j_["tp"].items():
+            if isinstance(v_, dict):
+                d_ = tps.setdefault(k_, {})
+                for p_, n_ in v_.items():
+                    d_[p_] = d_.get(p_, 0) + n_
+            else:
+                tps[k_] = tps.get(k_, 0) + v_
+    tps["wall_s"] = round(tp_wall, 2)
+    tps["predicates_of_this_property"] = {p_: t_[1] for p_, t_ in sorted(TRACE_PREDS.items()) if t_[0] == prop}
+    tps["rule"] = ("lkdriver trace: history = invocations (echoed call items, epilogue calls) and responses (first F status / late line / epilogue "
+                   "result) in item order; each predicate = extracted Gallina (coq/Model/LkTrace.v), checked at every prefix, proved of every "
+                   "reachable trace of Mlk (coq/Proofs/LkTraceP.v); p_fresh false = the schedule presents a key to Unlock before its acquisition "
+                   "returned (outside the model's key assumption): verdicts counted, never an alarm")
+    tie["coq_trace_predicates"] = tps
     j["violations"] += j2["violations"] + j3["violations"]
     j["known"] += j2["known"] + j3["known"]
     x_mism = j2["mismatches"]
@@ -1137,7 +1261,7 @@ def replay(ctx, prop, path):
     cf = b["work"] / "replay.txt"
     cf.write_text(corpus_text(c))
     e = execute(ctx, b, cf, "replay", procs=1, xpark=c.get("xpark", "1"))
-    j = judge(prop, e["runs"], e["chk"], e["failures"], compare=True)
+    j = judge(prop, e["runs"], e["chk"], e["failures"], compare=True, tp=e.get("tp"))
     for r in e["runs"].values():
         print("\n".join(r.raw))
     for sid, idx, text in j["violations"][:3]:
@@ -1180,7 +1304,7 @@ def main(argv=None):
         cf.write_text(corpus_text(c))
         e = execute(ctx, b, cf, "replay", procs=1, xpark=c.get("xpark", "1"))
         for p in props:
-            j = judge(p, e["runs"], e["chk"], e["failures"])
+            j = judge(p, e["runs"], e["chk"], e["failures"], tp=e.get("tp"))
             print(p, json.dumps(j, indent=1))
         for r in e["runs"].values():
             print("\n".join(r.raw))
@@ -1202,6 +1326,7 @@ def main(argv=None):
               % (p, tie["schedules_executed_on_real_code"], tie["items"], tie["distinct_schedules"], tie["wall_s"], tie["mismatches_in_projection"],
                  tie["schedules_failing_oracle"], tie["known_finding_reproductions"], tie["hangs_or_fatal"], tie["model_labels_never_reached"],
                  tie["yield_points_missing"], tie["sentinels_placed"]))
+        print("%s: extracted Coq trace predicates on the real histories: %s" % (p, json.dumps({k_: v_ for k_, v_ in tie.get("coq_trace_predicates", {}).items() if k_ != "rule"})))
     for fid, text in ctx.known:
         print("KNOWN-FINDING:", fid, text)
     for path, text, nfi in ctx.violations:
